@@ -33,6 +33,24 @@ fn main() {
     if let Some(tc) = arg(&args, "--time-cap").and_then(|s| s.parse::<f64>().ok()) {
         rep.time_cap_s = tc;
     }
+    if let Some(path) = arg(&args, "--known") {
+        if let Ok(txt) = std::fs::read_to_string(&path) {
+            if let Ok(v) = serde_json::from_str::<Value>(&txt) {
+                for f in v["findings"].as_array().cloned().unwrap_or_default() {
+                    if f["property"].as_str() == Some(prop) && f["status"].as_str() == Some("known") {
+                        let subs: Vec<String> = f["match_all"]
+                            .as_array()
+                            .cloned()
+                            .unwrap_or_default()
+                            .iter()
+                            .filter_map(|s| s.as_str().map(str::to_string))
+                            .collect();
+                        rep.known.push(subs);
+                    }
+                }
+            }
+        }
+    }
     if let Some(path) = arg(&args, "--replay") {
         let txt = std::fs::read_to_string(&path).expect("read replay file");
         let v: Value = serde_json::from_str(&txt).expect("parse replay file");
@@ -63,7 +81,7 @@ fn main() {
     if nm > 0 {
         std::process::exit(2);
     }
-    if nv > 0 {
+    if nv > 0 || rep.known_hits.load(std::sync::atomic::Ordering::Relaxed) > 0 {
         std::process::exit(1);
     }
 }
